@@ -83,7 +83,23 @@ def _check_encoding(spec, ctx, all_tags, vocab, tags, scores):
     from soundevent import data
     from soundevent.evaluation import encoding
 
+    from vf.core import snapshot
+
+    vocab_before = snapshot(vocab)
+    # another encoder over a different vocabulary is created first and a third one afterwards: encoders must be independent
+    other_vocab = [t for t in all_tags if all(t != v for v in vocab)][:3] + list(vocab[:1])
+    dedup = []
+    for t in other_vocab:
+        if all(t != d for d in dedup):
+            dedup.append(t)
+    enc_before = encoding.create_tag_encoder(dedup)
     enc = ctx.call(spec, "create_tag_encoder", encoding.create_tag_encoder, vocab)
+    enc_after = encoding.create_tag_encoder(dedup[::-1])
+    for t in all_tags:
+        exp_b = next((i for i, v in enumerate(dedup) if v == t), None)
+        exp_a = next((i for i, v in enumerate(dedup[::-1]) if v == t), None)
+        if enc_before.encode(t) != exp_b or enc_after.encode(t) != exp_a:
+            ctx.fail("encoders over different vocabularies influence each other", spec, [enc_before.encode(t), enc_after.encode(t)], [exp_b, exp_a], kind="encoder_shared_state")
 
     def ref_encode(t):
         for i, v in enumerate(vocab):
@@ -109,6 +125,7 @@ def _check_encoding(spec, ctx, all_tags, vocab, tags, scores):
         if enc.encode(d) != i:
             ctx.fail(f"encode(decode({i})) = {enc.encode(d)}", spec, enc.encode(d), i, kind="decode_encode")
 
+    ctx.unchanged(spec, "create_tag_encoder: the vocabulary list", vocab_before, vocab)
     exp_cls = next((i for i in in_vocab if i is not None), None)
     got_cls = encoding.classification_encoding(tags, enc)
     if got_cls != exp_cls:
